@@ -12,6 +12,42 @@ type FaultStore struct {
 	hg.Store
 	FailNewEventIn int // 0 = disarmed; k = fail the k-th next new-event write
 	Injected       int
+	// FailPassWriteIn: k = fail the k-th next write of a consensus pass (SetFrame, SetBlock,
+	// AddConsensusEvent: the writes of ProcessDecidedRounds); PassInjected counts them
+	FailPassWriteIn int
+	PassInjected    int
+}
+
+func (f *FaultStore) passFault() bool {
+	if f.FailPassWriteIn > 0 {
+		f.FailPassWriteIn--
+		if f.FailPassWriteIn == 0 {
+			f.PassInjected++
+			return true
+		}
+	}
+	return false
+}
+
+func (f *FaultStore) SetFrame(fr *hg.Frame) error {
+	if f.passFault() {
+		return fmt.Errorf("injected store failure (SetFrame)")
+	}
+	return f.Store.SetFrame(fr)
+}
+
+func (f *FaultStore) SetBlock(b *hg.Block) error {
+	if f.passFault() {
+		return fmt.Errorf("injected store failure (SetBlock)")
+	}
+	return f.Store.SetBlock(b)
+}
+
+func (f *FaultStore) AddConsensusEvent(e *hg.Event) error {
+	if f.passFault() {
+		return fmt.Errorf("injected store failure (AddConsensusEvent)")
+	}
+	return f.Store.AddConsensusEvent(e)
 }
 
 func (f *FaultStore) SetEvent(e *hg.Event) error {
